@@ -697,7 +697,7 @@ def check_sweeps(ctx, f):
         ctx.saw_fn(name)
         outside = None
         try:
-            sw = sweep.Sweep(f, b, op)
+            sw = sweep.Sweep(f, b, op, vmax=8 if ctx.tier == "quick" else 11)   # thorough: a wider universe (more slack than the order types need)
             problems = sw.run()
             rounds, states = sw.rounds, sw.states
             hard = [p for p in problems if not p.get("unsupported")]
